@@ -210,6 +210,48 @@ ASSUMPTIONS = [
 ]
 
 
+def run_witnesses(repo=REPO):
+    """compile-fail / compile-pass witnesses: cargo +nightly test --doc on a generated copy of
+    /verif/witness whose path dependency points at the analysed tree"""
+    src = os.path.join(VERIF, "witness")
+    dst = os.path.join(CACHE, "witness-run")
+    shutil.rmtree(dst, ignore_errors=True)
+    shutil.copytree(src, dst, ignore=shutil.ignore_patterns("target"))
+    man = open(os.path.join(dst, "Cargo.toml")).read().replace("/repo/oxidize-pdf-core", os.path.join(repo, "oxidize-pdf-core"))
+    open(os.path.join(dst, "Cargo.toml"), "w").write(man)
+    shutil.copy(os.path.join(repo, "Cargo.lock"), os.path.join(dst, "Cargo.lock"))
+    env = dict(os.environ)
+    env["CARGO_TARGET_DIR"] = os.path.join(CACHE, "target-witness")
+    env["CARGO_NET_OFFLINE"] = "true"
+    p = subprocess.run(["cargo", "+nightly", "test", "--doc", "--offline"], cwd=dst, env=env, stdout=subprocess.PIPE,
+                       stderr=subprocess.STDOUT, text=True)
+    res = []
+    for line in p.stdout.splitlines():
+        if line.startswith("test src/lib.rs - "):
+            name = line[len("test src/lib.rs - "):].rsplit(" ... ", 1)
+            res.append({"witness": name[0], "result": name[1] if len(name) > 1 else "?"})
+    return p.returncode, res, p.stdout[-3000:]
+
+
+def run_selftests(prop):
+    """seeded violations (must fire) and benign refactors (must stay silent) for the checker itself"""
+    from . import selftest as ST
+    out = []
+    dirs = [os.path.join(VERIF, "selftest", prop), os.path.join(VERIF, "seeded", prop)]
+    for d in dirs:
+        if not os.path.isdir(d):
+            continue
+        for f in sorted(os.listdir(d)):
+            path = os.path.join(d, f)
+            if f.endswith(".sed") or (f.endswith((".patch", ".diff")) and not f.startswith("demo")):
+                expect = "silent" if f.startswith("benign") else "fire"
+                ok, log = ST.run_one(prop, path, expect)
+                fired = [l for l in log.splitlines() if l.startswith(prop + " ")]
+                out.append({"selftest": os.path.relpath(path, VERIF), "expect": expect, "pass": ok,
+                            "first_report": (fired[0][:200] if fired else "")})
+    return out
+
+
 def run_property(prop, tier, seed=0):
     t0 = time.time()
     mod = importlib.import_module("oxv.rules." + prop)
@@ -248,6 +290,21 @@ def run_property(prop, tier, seed=0):
         undecided += ctx.undecided
         scope_sizes[cfgname] = {"bodies": len(facts.fns), "calls": facts.total_calls,
                                 "unresolved_calls": facts.unresolved_calls}
+    witness_res = None
+    selftests = None
+    checker_broken = []
+    if tier == "thorough" and os.environ.get("OXV_NO_SELFTEST") != "1":
+        if getattr(mod, "WITNESS", False):
+            rc, witness_res, wlog = run_witnesses()
+            if rc != 0 or not witness_res or any(w["result"] != "ok" for w in witness_res):
+                all_viol.append({"rule": "P11", "key": "witness-crate", "msg": "a compile-fail / compile-pass witness no longer behaves as "
+                                 "recorded: " + "; ".join("%s=%s" % (w["witness"], w["result"]) for w in (witness_res or [])) + " " + wlog[-400:],
+                                 "where": "/verif/witness/src/lib.rs", "witness": witness_res, "config": "default"})
+            for w in witness_res or []:
+                all_inst.append({"rule": "P11", "key": "witness:" + w["witness"], "verdict": "holds" if w["result"] == "ok" else "refuted",
+                                 "where": "/verif/witness/src/lib.rs", "detail": w["result"], "nontrivial": True})
+        selftests = run_selftests(prop)
+        checker_broken = [s_ for s_ in selftests if not s_["pass"]]
     known, fixed = load_known()
     new_viol = []
     known_hits = []
@@ -306,6 +363,8 @@ def run_property(prop, tier, seed=0):
             "known_findings_hit": [w for _, w in known_hits],
             "notes": notes,
             "exhaustive": bool(getattr(mod, "EXHAUSTIVE", True)),
+            "witnesses": witness_res,
+            "checker_selftests": selftests,
             "checker_cmd": "./check %s --tier %s" % (prop, tier),
         },
         "assumptions": ASSUMPTIONS + list(getattr(mod, "ASSUMPTIONS", [])),
@@ -316,7 +375,12 @@ def run_property(prop, tier, seed=0):
         json.dump(ev, f, indent=1)
     print("%s: %d instance(s) examined, %d refuted (%d known), %d undecided, tier=%s, %.1fs" %
           (prop, len(all_inst), len(all_viol), len(known_hits), undecided, tier, time.time() - t0))
-    return 1 if new_viol else 0
+    for s_ in checker_broken:
+        print("SELFTEST-FAIL property=%s %s expect=%s (the checker itself regressed: %s)" %
+              (prop, s_["selftest"], s_["expect"], "missed the seeded violation" if s_["expect"] == "fire" else "alarmed on a benign refactor"))
+    if new_viol:
+        return 1
+    return 3 if checker_broken else 0
 
 
 def main(argv):
